@@ -234,3 +234,21 @@ extern "C" void harness_c16_orient_static() {
   }
   v_witness("C16 orientation algebra end");
 }
+
+#ifdef C16_CONTROL
+// negative control (not part of any job; native sanity runs only): cells stored in a NON-convention order (topology check off, "at the
+// user's risk") must make the convention oracle fail -- shows that the oracle is not vacuous.
+extern "C" void harness_c16_control() {
+  HexK m;
+  m.add_n_vertices(8); hex_faces(m);
+  std::vector<HFH> l = hex_list0_ordered();
+  unsigned k = v_param(0);
+  if (k == 0) l = hex_list0();                                        // (2,3) adjacent instead of opposite
+  if (k == 1) { HFH t = l[4]; l[4] = l[5]; l[5] = t; }                // z flipped: wrong handedness
+  if (k == 2) { HFH t = l[0]; l[0] = l[1]; l[1] = t; }                // x flipped: wrong handedness
+  if (k == 3) { HFH t = l[2]; l[2] = l[4]; l[4] = t; t = l[3]; l[3] = l[5]; l[5] = t; }   // y and z axes exchanged: wrong handedness
+  m.add_cell(l, false);
+  check_hex_all(m, P_CONV | P_ORI | P_HV);
+  v_witness("C16 control end");
+}
+#endif
